@@ -397,6 +397,51 @@ func lossless(c *wk.Case, f *sfnt.Font, b []byte) {
 			fail("TrueTypeTables", "%s", d)
 		}
 	}
+	if fo, ok := f.Outlines.(*cff.Outlines); ok {
+		goo, ok2 := g.Outlines.(*cff.Outlines)
+		if !ok2 || len(goo.Glyphs) != len(fo.Glyphs) {
+			fail("CFFGlyphs", "outline kind or glyph count changed")
+		}
+		for i, gl := range fo.Glyphs {
+			if !fo.IsCIDKeyed() && gl.Name != goo.Glyphs[i].Name {
+				fail("CFFGlyphNames", "glyph %d: %q -> %q", i, gl.Name, goo.Glyphs[i].Name)
+			}
+			if d := simgen.DeepDiff(gl.Cmds, goo.Glyphs[i].Cmds, 1e-4, false); d != "" {
+				fail("CFFOutlines", "glyph %d: %s", i, d)
+			}
+			if d := simgen.DeepDiff([2]any{gl.HStem, gl.VStem}, [2]any{goo.Glyphs[i].HStem, goo.Glyphs[i].VStem}, 1e-4, false); d != "" {
+				fail("CFFHints", "glyph %d: %s", i, d)
+			}
+		}
+		if fo.Encoding != nil && !fo.IsCIDKeyed() {
+			if len(goo.Encoding) != len(fo.Encoding) {
+				fail("CFFEncoding", "%d codes -> %d codes", len(fo.Encoding), len(goo.Encoding))
+			}
+			for code := range fo.Encoding {
+				if fo.Encoding[code] != goo.Encoding[code] {
+					fail("CFFEncoding", "code %d: glyph %d -> %d", code, fo.Encoding[code], goo.Encoding[code])
+				}
+			}
+		}
+		if fo.IsCIDKeyed() {
+			if d := simgen.DeepDiff(fo.ROS, goo.ROS, 0, false); d != "" {
+				fail("CFFROS", "%s", d)
+			}
+			if fo.GIDToCID != nil {
+				if d := simgen.DeepDiff(fo.GIDToCID, goo.GIDToCID, 0, false); d != "" {
+					fail("CFFGIDToCID", "%s", d)
+				}
+			}
+			for i := range fo.Glyphs {
+				if x, y := fo.FDSelect(glyph.ID(i)), goo.FDSelect(glyph.ID(i)); x != y {
+					fail("CFFFDSelect", "glyph %d: %d -> %d", i, x, y)
+				}
+			}
+		}
+		if d := simgen.DeepDiff(fo.Private, goo.Private, 1e-4, false); d != "" {
+			fail("CFFPrivate", "%s", d)
+		}
+	}
 	if f.Gdef != nil {
 		if d := simgen.DeepDiff(f.Gdef, g.Gdef, 0, false); d != "" {
 			fail("GDEF", "%s", d)
